@@ -43,6 +43,8 @@ TRUSTED = [
     'RecursionError or trips the %d s alarm is classed as "does not return" (HANG); the model runs with fuel 6000 '
     'loop iterations; generated terminating cases stay far below both bounds',
     'json output_format of dump_conf_header is checked by the oracle only (not modelled)',
+    'end to end: configure_file() through `meson setup --backend=none` on generated projects, outputs compared byte for byte with '
+    'the in-process do_conf_str result (templates that raise are only exercised in-process)',
 ]
 
 LOOKUP_LIMIT = 1500
@@ -220,10 +222,22 @@ def cmake_str(v) -> str:
     return py_str(v)
 
 
+class _Outside(Exception):
+    pass
+
+
 def ref_subst_cmake(line: str, data: dict, at_only: bool):
-    """Reference for the cmake formats on *simple* lines: `${VAR}` (not with cmake@) and `@VAR@`, VAR over
-    [a-zA-Z0-9_/.+-], replaced by the value (bool as 1/0); one pass.  Returns None when the line is outside the
-    documented forms (nested `${${}}`, `${` without a well-formed name and `}`)."""
+    """Reference for the cmake formats: `${VAR}` (not with cmake@; VAR may itself be written with nested `${..}`,
+    evaluated first) and `@VAR@`, VAR over [a-zA-Z0-9_/.+-], replaced by the value (bool as 1/0); ONE left to
+    right pass, a substituted value is never looked at again.  Returns None when the line is outside the documented
+    forms (`${` without matching `}`, characters that cannot be part of a name between the braces, empty name)."""
+    try:
+        return _ref_cm(line, data, at_only)
+    except _Outside:
+        return None
+
+
+def _ref_cm(line: str, data: dict, at_only: bool):
     out: T.List[str] = []
     missing: T.Set[str] = set()
     used: T.List[T.Tuple[str, int]] = []   # (name, end offset in template)
@@ -242,16 +256,30 @@ def ref_subst_cmake(line: str, data: dict, at_only: bool):
                 i = j + 1
                 continue
         elif not at_only and line.startswith('${', i):
-            m = _name_end(line, i + 2, CMAKECH)
-            if m == i + 2 or m >= n or line[m] != '}':
-                return None
-            name = line[i + 2:m]
+            depth, j = 1, i + 2
+            while depth > 0:
+                if j >= n:
+                    raise _Outside()
+                if line.startswith('${', j):
+                    depth += 1
+                    j += 2
+                elif line[j] == '}':
+                    depth -= 1
+                    j += 1
+                elif line[j] in CMAKECH:
+                    j += 1
+                else:
+                    raise _Outside()
+            name, miss_inner, _u = _ref_cm(line[i + 2:j - 1], data, at_only)
+            if name == '' or not all(ch in CMAKECH for ch in name):
+                raise _Outside()
+            missing |= miss_inner
             if name in data:
                 out.append(cmake_str(data[name]))
             else:
                 missing.add(name)
-            used.append((name, m + 1))
-            i = m + 1
+            used.append((name, j))
+            i = j
             continue
         out.append(c)
         i += 1
@@ -343,10 +371,6 @@ def oracle_conf(ctx: Ctx, fmt: str, data: dict, lines: T.List[str], ans: str, ra
                 judged_all = False
                 continue
             want, miss, used = r
-            if any(isinstance(data.get(nm), str) and any(ch in data[nm] for ch in '@$') for nm, _ in used):
-                ctx.tag('oracle:cmake-value-with-placeholder-skipped')
-                judged_all = False
-                continue
             exp_missing |= miss
             if got != want:
                 hidden = any((nm not in data or data[nm] == '') and line[e:e + 1] in ('@', '$') for nm, e in used)
@@ -391,11 +415,8 @@ def oracle_cmakedefine(ctx: Ctx, case, line: str, data: dict, at_only: bool, got
         # the line-shaped placeholder is rendered as `#define NAME <rest, blanks normalised>` (trailing blanks
         # dropped), then the placeholders of that text are replaced
         r = ref_subst_cmake(f'#define {name} {" ".join(rest)}'.strip(), data, at_only)
-        if r is None or any(isinstance(data.get(nm), str) and any(ch in data[nm] for ch in '@$') for nm, _ in r[2]):
+        if r is None:
             ctx.tag('oracle:cmakedefine-nonsimple-skipped')
-            return False
-        if any((nm not in data or data[nm] == '') for nm, e in r[2]):
-            ctx.tag('oracle:cmakedefine-empty-skipped')
             return False
         want = r[0] + '\n'
     if got != want:
@@ -594,6 +615,101 @@ CORPUS: T.List[T.Tuple[str, dict, T.List[str]]] = [
 ]
 
 
+# ------------------------------------------------------------------ end to end: configure_file() through meson setup
+
+def meson_str(v: str) -> str:
+    return "'" + v.replace('\\', '\\\\').replace("'", "\\'").replace('\n', '\\n').replace('\r', '\\r').replace('\t', '\\t') + "'"
+
+
+def meson_val(v) -> str:
+    if isinstance(v, bool):
+        return 'true' if v else 'false'
+    if isinstance(v, int):
+        return str(v)
+    return meson_str(v)
+
+
+def e2e_stream(ctx: Ctx, I, rng, nproj: int, nfiles: int) -> None:
+    """Real `configure_file()` calls evaluated by `meson setup --backend=none` on generated projects; every produced
+    file is compared byte for byte with the in-process result (which the rest of the run ties to the model) and
+    judged by the file / header oracles."""
+    import subprocess
+    import sys
+    from concurrent.futures import ThreadPoolExecutor
+    U = I[0]
+    scratch = common.scratch_dir('mverif-c14-e2e-')
+    old_handler = signal.getsignal(signal.SIGALRM)
+    try:
+        projects = []
+        for pi in range(nproj):
+            src = os.path.join(scratch, f'p{pi}')
+            os.makedirs(src)
+            mb = [f"project('c14e2e{pi}')"]
+            expect = []
+            j = 0
+            while j < nfiles:
+                fmt = rng.choice(FORMATS)
+                data = {k: v for k, v in rand_data(rng, fmt).items()
+                        if not (isinstance(v, str) and any(ch in v for ch in '\x0c\x1f'))}
+                lines = [ln for ln in (rand_line(rng, fmt) for _ in range(rng.randint(1, 5)))
+                         if not any(ch in ln for ch in '\x0c\x1f')]
+                text = ''.join(lines)
+                with open(os.path.join(src, f't{j}.in'), 'w', encoding='utf-8', newline='') as f:
+                    f.write(text)
+                with open(os.path.join(src, f't{j}.in'), encoding='utf-8', newline='') as f:
+                    rl = f.readlines()
+                ans, raw = impl_conf(I, fmt, data, rl)
+                if raw is None:
+                    continue    # an error aborts the whole setup; error classes are covered in-process
+                mb.append(f'd{j} = configuration_data()')
+                for k, v in data.items():
+                    mb.append(f'd{j}.set({meson_str(k)}, {meson_val(v)})')
+                mb.append(f"configure_file(input: 't{j}.in', output: 't{j}.out', format: '{fmt}', configuration: d{j})")
+                expect.append((f't{j}.out', 'file', fmt, data, text, ''.join(raw[0])))
+                if data and rng.random() < 0.5:
+                    ofmt = rng.choice(['c', 'nasm', 'json'])
+                    clean = {k: v for k, v in data.items() if not (isinstance(v, str) and any(c in v for c in '\n\r'))}
+                    mb.append(f'h{j} = configuration_data()')
+                    for k, v in clean.items():
+                        mb.append(f'h{j}.set({meson_str(k)}, {meson_val(v)})')
+                    mb.append(f"configure_file(output: 'h{j}.h', output_format: '{ofmt}', configuration: h{j})")
+                    expect.append((f'h{j}.h', 'hdr', ofmt, clean, None, None))
+                j += 1
+            with open(os.path.join(src, 'meson.build'), 'w', encoding='utf-8') as f:
+                f.write('\n'.join(mb) + '\n')
+            projects.append((src, expect))
+        signal.setitimer(signal.ITIMER_REAL, 0)
+        env = dict(os.environ, PYTHONPATH=common.REPO, PYTHONDONTWRITEBYTECODE='1')
+
+        def setup(src):
+            return subprocess.run([sys.executable, os.path.join(common.REPO, 'meson.py'), 'setup', '--backend=none',
+                                   os.path.join(src, 'build'), src], env=env, stdout=subprocess.PIPE,
+                                  stderr=subprocess.STDOUT, text=True, timeout=300)
+        with ThreadPoolExecutor(max_workers=8) as ex:
+            results = list(ex.map(setup, [p[0] for p in projects]))
+        for (src, expect), res in zip(projects, results):
+            if res.returncode != 0:
+                ctx.disagreement({'kind': 'e2e-setup', 'input': open(os.path.join(src, 'meson.build')).read()[:3000],
+                                  'impl': res.stdout[-600:], 'model': 'setup succeeds (every template is OK in-process)'})
+                continue
+            for name, kind, fmt, data, text, want in expect:
+                with open(os.path.join(src, 'build', name), encoding='utf-8', newline='') as f:
+                    got = f.read()
+                ctx.count()
+                ctx.tag('e2e:' + kind)
+                if kind == 'file':
+                    if got != want:
+                        ctx.disagreement({'kind': 'e2e-file', 'input': {'fmt': fmt, 'data': data_json(data), 'text': text},
+                                          'impl': got, 'model': want})
+                    oracle_file(ctx, fmt, data, text, got)
+                else:
+                    oracle_header(ctx, fmt, None, data, {}, got)
+        ctx.extra['e2e_projects'] = nproj
+    finally:
+        signal.signal(signal.SIGALRM, old_handler)
+        common.rmtree(scratch)
+
+
 # ------------------------------------------------------------------ run
 
 def run(ctx: Ctx) -> None:
@@ -736,6 +852,9 @@ def _run(ctx: Ctx, I, U, rng) -> None:
     finally:
         common.rmtree(scratch)
 
+    # -- end to end: configure_file() evaluated by meson setup (thorough tier: 16 projects; quick: 2)
+    e2e_stream(ctx, I, rng, ctx.scale(2, 16), ctx.scale(6, 12))
+
     # -- correspondence with the model
     ctx.count(len(cases))
     if ctx.model_available:
@@ -751,8 +870,7 @@ def _run(ctx: Ctx, I, U, rng) -> None:
         ctx.sample({'kind': c[0], 'input': c[1], 'impl': c[3][:200]})
     ctx.assumptions += TRUSTED
     ctx.notes.append('observations (not violations): CRLF of a #mesondefine line becomes LF (line-shaped placeholder); '
-                     '"#mesondefineX Y" is processed as a define of Y; the cmake scanner re-expands placeholders found after '
-                     'the first character of a substituted value; "@VAR@" is also replaced in format "cmake"; a lone '
+                     '"#mesondefineX Y" is processed as a define of Y; "@VAR@" is also replaced in format "cmake"; a lone '
                      '"#cmakedefine" raises IndexError.')
 
 
